@@ -78,89 +78,107 @@ def sweep_cfg(ctx, rep, rule="T-CFG(sweep)", kmain=3, ksub=2, subs_only=False):
 
 # ---------------------------------------------------------------------------------------------- fixpoint vs reference semantics
 
+def fix_env(ctx):
+    """what the per-program comparison needs from the analysed repository"""
+    import ast as _ast
+    from .absint import FuncV
+    from .rules.cfg_rules import PT, PF
+    from .rules.cmptables import _find_analyses, _addr_consts
+    w = ctx.world
+    w.module(PF).values["_apply_transaction_context_analysis"] = ("builtin", "noop")
+    an = _find_analyses(ctx)
+    ANY, NO = _addr_consts(ctx, an["addr_fields"])
+    DU = "tealer.detectors.utils"
+    return {"pt": w.func(PT, "parse_teal"), "cf": w.func(PF, "construct_function"), "an": an, "ANY": ANY,
+            "detect": w.func(DU, "detect_missing_tx_field_validations"),
+            "pred": FuncV(w.module(DU), _ast.parse("lambda block_ctx: not block_ctx.rekeyto.any_addr", mode="eval").body, closure=None)}
+
+
+def fix_compare(ctx, env, name, src):
+    """the complete context analysis of one program of the direct-check fragment against the reference semantics: list of
+    (name, src, what, got, want) disagreements"""
+    from .absint import Interp
+    from .rules.cfg_rules import reference_cfg
+    from . import refsem
+    w = ctx.world
+    pt, cf, an, ANY, detect, pred = env["pt"], env["cf"], env["an"], env["ANY"], env["detect"], env["pred"]
+    out = []
+    ref = reference_cfg(ctx, src)
+    teal = w.call(pt, src, "c")
+    fn = w.call(cf, teal, ["B0"])
+    fblocks = {w.getattr(b, "idx"): b for b in w.getattr(fn, "blocks")}
+    multi = set()
+    for sname, sinfo in ref["subs"].items():
+        if sname != "__main__" and len(sinfo["callers"]) > 1:
+            multi |= set(sinfo["blocks"])
+    results = {}
+    for modname, keys in (("int_fields", None), ("addr_fields", ["RekeyTo"]), ("fee_field", ["Fee"])):
+        me = w.new(an[modname], fn)
+        if keys is not None:
+            me.fields["BASE_KEYS"] = list(keys)
+        me.fields["KEYS_WITH_GTXN"] = []
+        me.fields["_store_results"] = ("builtin", "noop")
+        w.call(w.method(me, "run_analysis"))
+        results[modname] = w.getattr(me, "_block_contexts")
+    for field, modname, key in (("size", "int_fields", "GroupSize"), ("index", "int_fields", "GroupIndex"), ("rekey", "addr_fields", "RekeyTo"), ("fee", "fee_field", "Fee")):
+        adm, paths = refsem.admitted(ref, field)
+        for b, want in adm.items():
+            if b not in fblocks:
+                if want:
+                    out.append((name, src, f"{key}: block B{b} missing from the function", None, sorted(map(str, want))))
+                continue
+            got = results[modname][key][fblocks[b]]
+            if field in ("size", "index"):
+                g = set(got)
+                if not (g >= want):
+                    out.append((name, src, f"{key} sound at B{b}", sorted(g), sorted(want)))
+                elif g != want and b not in multi:
+                    out.append((name, src, f"{key} exact at B{b}", sorted(g), sorted(want)))
+            elif field == "rekey":
+                any_addr = ANY in got
+                if "other" in want and not any_addr:
+                    out.append((name, src, f"RekeyTo sound at B{b}", sorted(map(str, got)), "any address (an accepting path admits an arbitrary address)"))
+                elif "other" not in want and any_addr and b not in multi:
+                    out.append((name, src, f"RekeyTo exact at B{b}", sorted(map(str, got)), "not 'any address' (every accepting path through the block excludes it)"))
+            else:
+                unknown, value = w.getattr(got, "is_unknown"), w.getattr(got, "value")
+                mx = max(want) if want else None
+                if mx is not None and not unknown and value < mx:
+                    out.append((name, src, f"Fee sound at B{b}", value, f">= {mx}"))
+                elif mx is not None and not unknown and b not in multi and value != mx:
+                    out.append((name, src, f"Fee exact at B{b}", value, mx))
+                elif mx is None and not unknown and value != 0 and b not in multi:
+                    out.append((name, src, f"Fee empty at B{b}", value, 0))
+        if field == "rekey":
+            # verdict of the path search with the rekey-to predicate
+            for b, blk in fblocks.items():
+                c = w.call(w.method(fn, "transaction_context"), blk)
+                Interp(c.cls.mod).assign_attr(w.getattr(c, "rekeyto"), "any_addr", ANY in results["addr_fields"]["RekeyTo"][blk])
+            reported = w.call(detect, fn, pred)
+            dangerous = any("other" in ok for _, ok in paths)
+            if dangerous and not reported:
+                out.append((name, src, "rekey-to verdict: missed", "no path reported", "at least one path (an accepting execution admits an arbitrary RekeyTo)"))
+            if not dangerous and reported and not multi:
+                out.append((name, src, "rekey-to verdict: spurious", [[w.getattr(x, "idx") for x in p] for p in reported][:3], "no path (every accepting path excludes it)"))
+    return out
+
+
 def _fix_worker(args):
     root, shard, nshards, cfg = args
     import sys
     sys.setrecursionlimit(20000)
     from .context import Ctx
-    from .absint import PyRaise, Unsupported, Obj, Interp
-    from .rules.cfg_rules import reference_cfg, PT, PF
-    from .rules.cmptables import _find_analyses, _addr_consts
-    from . import gen, refsem
+    from .absint import PyRaise, Unsupported
+    from . import gen
     ctx = Ctx(root)
-    w = ctx.world
-    w.module(PF).values["_apply_transaction_context_analysis"] = ("builtin", "noop")
-    pt, cf = w.func(PT, "parse_teal"), w.func(PF, "construct_function")
-    an = _find_analyses(ctx)
-    ANY, NO = _addr_consts(ctx, an["addr_fields"])
-    DU = "tealer.detectors.utils"
-    detect = w.func(DU, "detect_missing_tx_field_validations")
-    import ast as _ast
-    from .absint import FuncV
-    pred = FuncV(w.module(DU), _ast.parse("lambda block_ctx: not block_ctx.rekeyto.any_addr", mode="eval").body, closure=None)
+    env = fix_env(ctx)
     out, n = [], 0
     for k, (name, src) in enumerate(gen.checked_programs(**cfg)):
         if k % nshards != shard:
             continue
         n += 1
         try:
-            ref = reference_cfg(ctx, src)
-            teal = w.call(pt, src, "c")
-            fn = w.call(cf, teal, ["B0"])
-            fblocks = {w.getattr(b, "idx"): b for b in w.getattr(fn, "blocks")}
-            multi = set()
-            for sname, sinfo in ref["subs"].items():
-                if sname != "__main__" and len(sinfo["callers"]) > 1:
-                    multi |= set(sinfo["blocks"])
-            results = {}
-            for modname, keys in (("int_fields", None), ("addr_fields", ["RekeyTo"]), ("fee_field", ["Fee"])):
-                me = w.new(an[modname], fn)
-                if keys is not None:
-                    me.fields["BASE_KEYS"] = list(keys)
-                me.fields["KEYS_WITH_GTXN"] = []
-                me.fields["_store_results"] = ("builtin", "noop")
-                w.call(w.method(me, "run_analysis"))
-                results[modname] = w.getattr(me, "_block_contexts")
-            for field, modname, key in (("size", "int_fields", "GroupSize"), ("index", "int_fields", "GroupIndex"), ("rekey", "addr_fields", "RekeyTo"), ("fee", "fee_field", "Fee")):
-                adm, paths = refsem.admitted(ref, field)
-                for b, want in adm.items():
-                    if b not in fblocks:
-                        if want:
-                            out.append((name, src, f"{key}: block B{b} missing from the function", None, sorted(map(str, want))))
-                        continue
-                    got = results[modname][key][fblocks[b]]
-                    if field in ("size", "index"):
-                        g = set(got)
-                        if not (g >= want):
-                            out.append((name, src, f"{key} sound at B{b}", sorted(g), sorted(want)))
-                        elif g != want and b not in multi:
-                            out.append((name, src, f"{key} exact at B{b}", sorted(g), sorted(want)))
-                    elif field == "rekey":
-                        any_addr = ANY in got
-                        if "other" in want and not any_addr:
-                            out.append((name, src, f"RekeyTo sound at B{b}", sorted(map(str, got)), "any address (an accepting path admits an arbitrary address)"))
-                        elif "other" not in want and any_addr and b not in multi:
-                            out.append((name, src, f"RekeyTo exact at B{b}", sorted(map(str, got)), "not 'any address' (every accepting path through the block excludes it)"))
-                    else:
-                        unknown, value = w.getattr(got, "is_unknown"), w.getattr(got, "value")
-                        mx = max(want) if want else None
-                        if mx is not None and not unknown and value < mx:
-                            out.append((name, src, f"Fee sound at B{b}", value, f">= {mx}"))
-                        elif mx is not None and not unknown and b not in multi and value != mx:
-                            out.append((name, src, f"Fee exact at B{b}", value, mx))
-                        elif mx is None and not unknown and value != 0 and b not in multi:
-                            out.append((name, src, f"Fee empty at B{b}", value, 0))
-                if field == "rekey":
-                    # verdict of the path search with the rekey-to predicate
-                    for b, blk in fblocks.items():
-                        c = w.call(w.method(fn, "transaction_context"), blk)
-                        Interp(c.cls.mod).assign_attr(w.getattr(c, "rekeyto"), "any_addr", ANY in results["addr_fields"]["RekeyTo"][blk])
-                    reported = w.call(detect, fn, pred)
-                    dangerous = any("other" in ok for _, ok in paths)
-                    if dangerous and not reported:
-                        out.append((name, src, "rekey-to verdict: missed", "no path reported", "at least one path (an accepting execution admits an arbitrary RekeyTo)"))
-                    if not dangerous and reported and not multi:
-                        out.append((name, src, "rekey-to verdict: spurious", [[w.getattr(x, "idx") for x in p] for p in reported][:3], "no path (every accepting path excludes it)"))
+            out += fix_compare(ctx, env, name, src)
         except PyRaise as e:
             out.append((name, src, "runs", f"RAISES {e.exc} {e.where}", "completes"))
         except Unsupported as e:
